@@ -283,9 +283,12 @@ impl DbInner {
 				if let Some(v) = overlay.get(col as usize).and_then(|o| o.get(&key)) {
 					return Ok(v.map(|i| i.value().clone()))
 				}
-				// Go into tables and log overlay.
-				let log = self.log.overlays();
-				Ok(column.get(&key, log)?.map(|(v, _rc)| v))
+				// Go into tables and log overlay. The log is locked over the whole lookup: a
+				// record published between the index lookup and the last part of a multi-part
+				// value would otherwise tear it (a queued dereference of a reference counted
+				// key is not visible in the commit overlay).
+				let log = self.log.overlays().read();
+				Ok(column.get(&key, &*log)?.map(|(v, _rc)| v))
 			},
 			Column::Tree(column) => {
 				let overlay = self.commit_overlay.read();
@@ -313,9 +316,9 @@ impl DbInner {
 				if let Some(l) = overlay.get(col as usize).and_then(|o| o.get_size(&key)) {
 					return Ok(l)
 				}
-				// Go into tables and log overlay.
-				let log = self.log.overlays();
-				column.get_size(&key, log)
+				// Go into tables and log overlay (locked over the whole lookup, as in `get`).
+				let log = self.log.overlays().read();
+				Ok(column.get(&key, &*log)?.map(|(v, _rc)| v.len() as u32))
 			},
 			Column::Tree(column) => {
 				let overlay = self.commit_overlay.read();
